@@ -16,6 +16,7 @@ import z3
 from pyvc import smt, views
 from pyvc.smt import I
 from pyvc.values import *          # noqa
+from pyvc.values import eqv, veq   # noqa
 from pyvc.engine import QueueV, GenStreamV, EmptyDictV, Outcome
 from pyvc.contract import *        # noqa
 from pyvc.views import AX, Out, StreamView
@@ -211,7 +212,7 @@ def _on_yield(S, value):
     x = SRC_V(o)
     pulled = sub + (1 if 'ele_pending' in S.st.ghost else 0)
     return [('C04:yield-value-is-f(src[out_n])', z3.And(o < SRCN, z3.Not(SRC_R(o)), z3.Not(smt.APP_R(f, x)),
-                                                        veq(value, ObjV(smt.APP_V(f, x))))),
+                                                        eqv(value, ObjV(smt.APP_V(f, x))))),
             ('C07:started-beyond-delivered<=buffer_size', sub - (o + 1) <= b),
             ('C07:pulled-beyond-delivered<=buffer_size+2', z3.And(sub + 1 - (o + 1) <= b + 2))]
 
